@@ -15,6 +15,7 @@ struct Ctx {
   std::deque<std::string> pool;     // storage kept alive for linked strings
   size_t opcount = 0;               // selects among equivalent API entry points
   size_t curAlias = 0;              // the counter value of the operation being executed
+  bool creatingKey = false;         // the current operation may create the member it names
   std::deque<std::vector<char>> pool2;
   int kind = 0;
 };
@@ -57,6 +58,14 @@ static const char* aliasPrefix(Ctx& c, const std::string& k) {
 }
 template <class F> static auto withKey(Ctx& c, const std::string& k, F f) {
   bool hasNul = k.find('\0') != std::string::npos;
+  if (c.kind == 7 && !hasNul && c.creatingKey && (c.curAlias % 3) != 0) return f(linkedBuf(c, k));   // members are mostly created with linked keys
+  if (c.kind == 7 && !hasNul) {
+    // mixed mode: whenever a longer linked buffer starts with this key, give the key as a sized view INTO that buffer
+    if (const char* a = aliasPrefix(c, k)) {
+      if (c.curAlias & 1) return f(JsonString(a, k.size(), JsonString::Copied));
+      return f(std::string_view(a, k.size()));
+    }
+  }
   switch (hasNul ? 0 : effKind(c)) {
     case 1: return f(linkedBuf(c, k));
     case 2: { c.pool2.emplace_back(k.begin(), k.end()); c.pool2.back().push_back(0); std::vector<char> tmp = c.pool2.back();
@@ -92,6 +101,7 @@ static std::string runOp(Ctx& c, const std::vector<std::string>& a) {
   const std::string& op = a[0];
   size_t alias = c.opcount++;   // selects among equivalent API entry points (see rmidx / rmkey / getelem / getmember)
   c.curAlias = alias;
+  c.creatingKey = (op == "makemember" || op == "setmember");
   // JsonString::isLinked() reports the storage on purpose: a value set from a const char* is linked, from any other
   // kind it is a copy; an assignment keeps the source's storage
   auto linkOk = [&](JsonVariantConst v, const std::string& d) -> bool {
